@@ -62,6 +62,12 @@ Theorem C13_read_fails_only_own : forall s k h, SC.reach s ->
 Proof. exact SCP.read_fails_only_own. Qed.
 Print Assumptions C13_read_fails_only_own.
 
+(* The extracted monitor of suite sharedconn accepts every history of the sequential view of the
+   model that the implementation is compared with (all operation lists, malformed ones included). *)
+Theorem C13_sc_monitor_sound : forall ops, SC.C13_sc_monitor ops (SC.sc_run SC.finit ops) = true.
+Proof. exact SCP.sc_monitor_sound. Qed.
+Print Assumptions C13_sc_monitor_sound.
+
 Example C13_handles_example :
   exists s, SC.reach s /\ SC.hpcs s 0%nat = SC.HClosed /\ SC.hpcs s 1%nat = SC.HClosed /\
             SC.ucloses s = 1%nat /\ SC.created s = 2%nat.
